@@ -15,8 +15,11 @@ C = "cache.Cache."
 def r1_key_discipline(run):
     run.rule("R1", "every access to the cache map is keyed by code(name_id) of "
              "the method's own name_id (then entity_id); subjects() is the only "
-             "whole-map read; Population forwards name_id unchanged")
+             "whole-map read; Population forwards name_id unchanged; the key "
+             "function code() is one-to-one")
     m = run.model
+    from . import c18
+    c18.code_is_injective(run, "R1")
     ci = m.cls("cache.Cache")
     n = 0
     for name, fi in sorted(ci.methods.items()):
@@ -491,3 +494,5 @@ def check(run):
     r4_delete_reset(run)
     r5_backend_neutral(run)
     r6_read_path_does_not_mutate(run)
+    from ..common_rules import memo_rule
+    memo_rule(run, "R7", {"cache", "ident", "population"}, "cache and identifier lookups")
